@@ -60,7 +60,7 @@ def parseEv (ts : List String) : Option Ev :=
               (← parseVal v) (← parseBool jn) (← parseBool hc))
   | ["res", nf, nx, nruns, flag, cls, label, v, jn] => do
       pure (.res (← nf.toNat?) (← nx.toNat?) (← nruns.toNat?) (← flag.toInt?) (parseCls cls) (← label.toInt?) (← parseVal v) (← parseBool jn))
-  | t :: _ => if t ∈ ["trs", "ratio", "rrho", "fgb", "fge", "diag", "rad"] then some .other else none
+  | t :: _ => if t ∈ ["trs", "ratio", "rat", "rrho", "fgb", "fge", "diag", "rad"] then some .other else none
   | [] => none
 
 /-- fold with the index of the first rejected event -/
